@@ -144,3 +144,17 @@ pub fn k_f64_conjugate_base() {
 pub fn k_f64_constants_zero_one() {
     vcheck!("C10.f64.constants.zero_one", BaseElement::ZERO.0 == 0 && BaseElement::ONE.0 == 0xFFFF_FFFF);
 }
+
+// quadratic Frobenius (conjugation phi -> 1 - phi of x^2 - x + 2): linear operations only, so the full
+// 2^64 x 2^64 domain is decided bit-precisely, with a concrete counterexample when it fails (the Verus
+// contract C10.f64.ext2.frobenius.contract states the same over the field values)
+//# harness: fn=f64 <BaseElement as ExtensibleField<2>>::frobenius; label=complete; tier=quick
+#[cfg_attr(kani, kani::proof)]
+pub fn k_f64_ext2_frobenius() {
+    let (a, b) = (any_elem(), any_elem());
+    let r = <BaseElement as ExtensibleField<2>>::frobenius([a, b]);
+    vcheck!("C10.f64.ext2.frobenius.canonical", r[0].0 < M && r[1].0 < M);
+    vcheck!("C10.f64.ext2.frobenius.value", r[0].0 as u128 == (a.0 as u128 + b.0 as u128) % MW
+        && (r[1].0 as u128 + b.0 as u128) % MW == 0);
+    vreach!("C10.f64.ext2.frobenius.reach");
+}
